@@ -451,6 +451,12 @@ theorem broadcast_delivers_each_once :
     recvWires (1, 0, 0) (s.threads 1).res = [10, 11] ∧ recvWires (2, 0, 0) (s.threads 2).res = [10, 11] := by
   decide
 
+/-- F29 (open finding, the code as it is): the non-blocking broadcast receive performs NO hub operation —
+`while block:` is skipped and RuntimeError("No message broadcasted") is raised whatever is queued.  Full
+statement that fails: "a non-blocking broadcast receive returns a queued message". -/
+theorem broadcast_recv_nonblocking_is_noop (r : Nat) (rs : List Nat) (id : Nat) :
+    compile (.brecv r rs id false) = [] := rfl
+
 /-- mixed plain / structured traffic through the socket layer (kernel-decided run): the structured message comes
 back as (header, payload), the string as a string, in sending order -/
 example :
